@@ -184,6 +184,10 @@ def lsCmd (arg : String) : String :=
      | "reverse" => showInts l.reverse
      | "powerset" => showIntss (Ls.powerset l)
      | "permutations" => showIntss (Ls.permutations l)
+     | "sublists" => showIntss (Ls.contiguous l)
+     | "windows" => showIntss (Ls.windows l (b.toInt?.getD 0))
+     | "rle" => "[" ++ ",".intercalate ((Ls.rle l).map (fun p => s!"[{p.1},{p.2}]")) ++ "]"
+     | "rlerld" => showInts (Ls.rld (Ls.rle l))
      | _ => "BADFN")
   | _ => "BADARG"
 
